@@ -730,9 +730,12 @@ func run(c *lib.Ctx) {
 	)
 	r := &runner{c: c, sigCnt: map[string]int{}}
 	if c.Replay != nil {
-		r.replay(c.Replay)
+		if !replayEncode(c, c.Replay) {
+			r.replay(c.Replay)
+		}
 		return
 	}
+	encodePart(c, c.N(4000, 200000))
 
 	// seeds: every variant once, spread over the shards; each also gets edit sequences
 	seeds := loadSeeds()
